@@ -230,6 +230,7 @@ func main() {
 		go func(s int) {
 			defer wg.Done()
 			start := 0
+			stalls := 0
 			for attempt := 0; attempt < 200 && !abort(); attempt++ {
 				outF := filepath.Join(work, fmt.Sprintf("out.%d.%d.jsonl", s, attempt))
 				errF := filepath.Join(work, fmt.Sprintf("err.%d.%d.txt", s, attempt))
@@ -245,6 +246,19 @@ func main() {
 				// the child died or hung inside case lastBegun
 				dumpB, _ := os.ReadFile(errF)
 				res := classifyCrash(string(dumpB))
+				if res.Verdict == "inconclusive" {
+					stalls++
+					if stalls >= 2 {
+						// two stalls in one shard: stop burning time, the run is a harness failure (or a livelock everywhere)
+						mu.Lock()
+						if lastBegun >= 0 {
+							results[lastBegun] = caseOut{idx: lastBegun, res: res}
+						}
+						crashes = append(crashes, fmt.Sprintf("shard %d stalled twice (last in case %d); giving up on the shard", s, lastBegun))
+						mu.Unlock()
+						return
+					}
+				}
 				mu.Lock()
 				if lastBegun >= 0 {
 					results[lastBegun] = caseOut{idx: lastBegun, res: res}
@@ -484,7 +498,7 @@ func runChild(bin string, args []string, errF, raceLog, outF string) {
 	}
 	doneCh := make(chan struct{})
 	go func() { c.Wait(); close(doneCh) }()
-	stallLimit := 150 * time.Second
+	stallLimit := 120 * time.Second
 	lastSize := int64(-1)
 	lastChange := time.Now()
 	tk := time.NewTicker(2 * time.Second)
